@@ -250,10 +250,15 @@ impl MqttShared {
         self.streaming_waiter.take();
 
         if let Some(cb) = self.on_publish_ack.take() {
-            for (idx, tx, _) in queues.inflight.drain(..) {
-                if tx.is_none() {
-                    (*cb)(idx, true);
-                }
+            let ids: Vec<_> = queues
+                .inflight
+                .drain(..)
+                .filter_map(|(idx, tx, _)| if tx.is_none() { Some(idx) } else { None })
+                .collect();
+            // callback may use the sink, release queues for the calls
+            drop(queues);
+            for idx in ids {
+                (*cb)(idx, true);
             }
         } else {
             queues.inflight.clear();
@@ -379,9 +384,12 @@ impl MqttShared {
                     if let Some(tx) = tx {
                         let _ = tx.send(pkt);
                     } else {
+                        // callback may use the sink, release queues for the call
+                        drop(queues);
                         let cb = self.on_publish_ack.take().unwrap();
                         (*cb)(pkt.packet_id(), false);
                         self.on_publish_ack.set(Some(cb));
+                        queues = self.queues.borrow_mut();
                     }
 
                     // wake up queued request (receive max limit)
